@@ -65,7 +65,7 @@ add("C14", "fault_enumeration",
     "exhaustive fault (truncation point) enumeration on the real parser", "DESIGN.md §5 C14", "E-ENUM")
 
 add("C15", "model_checking",
-    "Every point of the scale ladder (every structural repetition the formats allow - records per set, sets per message, template records per set, fields per template, packets per buffer, variable-length lengths, zero-length-field templates, announced counts over short bodies, the V9 retry loop, templates whose fields under-declare their length, and n = 1..32 768 already-cached definitions of either kind followed by one fixed maximal definition or data buffer or by a buffer packed with minimal packets - at n in {1..16, 24, 32, ... , max-1, max} up to the datagram limit) and every case of the V9/IPFIX grammar products is executed in an isolated worker whose counting global allocator measures bytes requested, peak live and bytes live at return; three fixed laws (peak, output, total/backstop) are judged per evaluation, a growth law per ladder rung (allocation beyond 64 bytes per byte of cached template, per byte of input+output, may not grow more than 3x with n; judged a second time on the allocation beyond an executable model of the recorded per-packet copy) and a conservative wall-time growth law confirmed by isolated re-measurement.",
+    "Every point of the scale ladder (every structural repetition the formats allow - records per set, sets per message, template records per set, fields per template, packets per buffer, variable-length lengths, zero-length-field templates, announced counts over short bodies, the V9 retry loop, templates whose fields under-declare their length, and n = 1..32 768 already-cached definitions of either kind followed by one fixed maximal definition or data buffer or by a buffer packed with minimal packets - at n in {1..16, 24, 32, ... , max-1, max} up to the datagram limit) and every case of the V9/IPFIX grammar products is executed in an isolated worker whose counting global allocator measures bytes requested, peak live and bytes live at return; three fixed laws (peak, output, total/backstop) are judged per evaluation, a growth law per ladder rung (allocation beyond 64 bytes per byte of cached template, per byte of input+output, may not grow more than 3x with n; judged a second time on the allocation beyond an executable model of the recorded per-packet copy) and a conservative wall-time growth law (6-fold growth of time per byte against the best smaller size with at least 4 KiB of input, for calls of at least 20 ms) judged on the minimum of three isolated re-measurements.",
     "the constants of the laws are chosen with head-room over the measured benign maxima (reported in the evidence); coverage is the ladder and the grammar product, not all buffers; trusted: alloc.rs, sweep.rs",
     "bounded-exhaustive execution sweep with allocation accounting (stateless exploration of real code)", "DESIGN.md §5 C15", "E-SWEEP")
 add("C16", "model_checking",
